@@ -237,6 +237,15 @@ def gen_cases(ctx, n):
         case = {"kind": kind, "mutation": mop, "doc": d, "expect": [es, el], "rng": ["acc", i]}
         cases.append(case)
         ctx.case("acceptance", {"kind": kind, "mutation": mop, "rng": ["acc", i]}, mop != "none")
+        # systematically: every top-level key of the document that is required by both formalisms
+        if len(cases) < 400:
+            tops = {"hugr": ["nodes", "edges"], "package": ["modules"],
+                    "extension": ["version", "name", "runtime_reqs", "types", "values", "operations"]}[kind]
+            for key in tops:
+                d2 = {k: v for k, v in doc.items() if k != key}
+                cases.append({"kind": kind, "mutation": f"delete-top-{key}", "doc": d2, "expect": [False, False],
+                              "rng": ["acc", i]})
+                ctx.case("acceptance", {"kind": kind, "mutation": f"delete-top-{key}", "rng": ["acc", i]}, True)
     return cases
 
 
@@ -253,7 +262,11 @@ def replay(ctx, rec):
     if rec.get("stratum") == "acceptance" and "rng" in case:
         r = ctx.rng(*case["rng"])
         kind, doc = corpus_doc(r)
-        mop, d, es, el = mutate(r, kind, doc)
+        if str(case.get("mutation", "")).startswith("delete-top-"):
+            key = case["mutation"][len("delete-top-"):]
+            mop, d, es, el = case["mutation"], {k: v for k, v in doc.items() if k != key}, False, False
+        else:
+            mop, d, es, el = mutate(r, kind, doc)
         c = [{"kind": kind, "mutation": mop, "doc": d, "expect": [es, el], "rng": case["rng"]}]
         acceptance(ctx, case.get("mode", "strict"), c)
     else:
